@@ -35,6 +35,10 @@ import CueVerif.Proofs.JsonProps
 import CueVerif.Proofs.JsonDocProps
 import CueVerif.Proofs.JsonDocStream
 import CueVerif.Proofs.JsonDocFuel
+import CueVerif.Proofs.JsonDocFuelEnough
+import CueVerif.Proofs.JsonExtract
+import CueVerif.Proofs.JsonDocErr
+import CueVerif.Proofs.JsonExtractWf
 namespace CueVerif.C10
 open CueVerif CueVerif.Quote CueVerif.Json
 
@@ -229,16 +233,22 @@ theorem C10_parse_fuel_mono (f g : Nat) (hfg : f ≤ g) (s : Bytes) (x : JVal ×
 example : pValue 40 [0x5B, 0x5B, 0x31, 0x5D, 0x5D] = some (.arr [.arr [.num false 1 0]], []) :=
   C10_parse_fuel_mono 6 40 (by decide) _ _ (by rfl)
 
-/-- Fuel, half two, on ARBITRARY texts: fuel above the length of the text is always enough (an
-answer obtained with any fuel is already obtained with `length + 1`).  Believed true (every level
-of the recursion consumes a byte before it recurses); proved so far only for the texts the
-encoder writes, where it is part of `C10_document_out` / `C10_document_out_prefix` (`parseJSON`
-runs with fuel `length + 1`).  The spec parser is additionally compared with Go's encoding/json on every
-run (op `docdata`). -/
--- OPEN
+/-- Fuel, half two, on ARBITRARY texts: fuel above the length of the text is always enough — an
+answer obtained with any fuel whatsoever is the answer for every fuel above the length (every
+successful call consumes at least one byte before it recurses: `pValue_fuel`).  So `parseJSON`,
+which runs with `length + 1`, computes the fuel-free meaning of the grammar: the spec parser is
+total with that fuel, and no text is rejected or misread for lack of fuel. -/
 def C10_parse_fuel_stmt : Prop :=
   ∀ (s : Bytes) (f : Nat) (v : JVal) (r : Bytes), pValue f s = some (v, r) →
     ∀ g, s.length < g → pValue g s = some (v, r)
+
+theorem C10_parse_fuel : C10_parse_fuel_stmt :=
+  fun s f v r h g hg => pValue_fuel_enough s f (v, r) h g hg
+
+/-- … and every successful parse returns a strictly shorter rest. -/
+theorem C10_parse_consumes (f : Nat) (s : Bytes) (v : JVal) (r : Bytes) (h : pValue f s = some (v, r)) :
+    r.length < s.length :=
+  (pValue_fuel f s (v, r) h).1
 
 /-! ### streams (the framing `Decoder.Extract` gets from json.Decoder: `parseStream`) -/
 
@@ -271,5 +281,128 @@ example : parseStream (2 + 1) ([0x20] ++ (streamText [(.num false 1 0, [0x0A]), 
     intro p hp
     simp only [List.mem_cons, List.mem_nil_iff, or_false] at hp
     rcases hp with rfl | rfl <;> simp [MVal.WF, MVal.WFList, isWs]) _ _ (by simp [isWs]) 1
+
+/-! ### encoder: error branches, bytes, non-finite decimals (Model/JsonDocErr.lean) -/
+
+/-- `C10_document_out_total`: `Value.appendJSON` with ALL its branches (`appendJSONE`): whenever
+the value holds nothing the appender refuses and only finite numbers (`toM` defined), the call
+succeeds and writes a JSON text denoting the value's data — a bytes value as the string of its
+padded standard base64 text (`json.Marshal([]byte)`). -/
+theorem C10_document_out_total (v : EVal) (m : MVal) (hm : v.toM = some m) (hwf : m.WF) :
+    ∃ out, appendJSONE v = some out ∧ parseJSON out = some (dataOf m) :=
+  doc_roundtrip_E v m hm hwf
+
+-- non-vacuity: `{"k":'\xff\x00a'}` (bytes → "/wBh")
+example : (EVal.struct [([0x6B], .bytes [0xFF, 0x00, 0x61])]).toM =
+    some (.struct [([0x6B], .str [0x2F, 0x77, 0x42, 0x68])]) := by rfl
+
+/-- the base64 text of any byte string is a valid-UTF-8 (ASCII) string that needs no escaping -/
+theorem C10_bytes_wf (b : Bytes) : GoodStr (base64Std b) ∧ jsonEscape (base64Std b) = 0x22 :: (base64Std b ++ [0x22]) :=
+  ⟨safe_good _ (base64_safe _ b (Nat.le_refl _)), (bytes_as_string b).symm⟩
+
+/-- `C10_marshal_error`: an incomplete / non-concrete value or an error value ANYWHERE in the
+tree makes the whole call fail: an error and no bytes — never a partial or patched-up document. -/
+theorem C10_marshal_error (v : EVal) (h : v.refused = true) : appendJSONE v = none :=
+  appendE_refused v h
+
+example : (EVal.list [.null, .struct [([0x61], .incomplete)]]).refused = true := by decide
+
+/-- `C10_nonfinite_invalid`: IF a non-finite decimal reached the appender, the call would succeed
+and write `Infinity` / `-Infinity` / `NaN`, which is not JSON.  A statement about the code path
+(no check in `appendJSON`); the harness searches for a way to build such a value (op `encerr`,
+Direct `nonfinite-marshals-as-invalid-json`). -/
+theorem C10_nonfinite_invalid (neg : Bool) :
+    parseJSON (fmtDec (.inf neg)) = none ∧ parseJSON (fmtDec (.nan neg)) = none :=
+  nonfinite_invalid neg
+
+/-! ### decoder: whole documents (`json.Extract` = `extract` + `PatchExpr`), reading direction
+
+Model: CueVerif/Model/JsonExtract.lean.  `parseTree` (Spec/JsonTree.lean) is the RFC 8259 parse
+tree with the tokens kept (`parseJSON = den ∘ parseTree`, `parseJSON_eq`); `astOf` the AST
+`parser.ParseExpr` returns for it (assumption, tied by op `extract`); `patch` = `PatchExpr`
+(labels → identifiers where `ast.StringLabelNeedsQuoting` says so, strings longer than 10 bytes
+or with a backslash re-quoted with `literal.String.WithOptionalTabIndent(depth)
+.WithOptionalHashes()` — possibly as multi-line strings — numbers verbatim); `evalData` the
+data the literal evaluates to, under the stated assumption that a struct literal with pairwise
+distinct string labels and data values evaluates to the map of those labels. -/
+
+/-- `C10_extract_data`: for EVERY JSON text in the covered region (`JTree.Readable`: strings
+are Unicode text without raw U+FEFF, numbers within apd's limits, member names of each object
+pairwise distinct — the three excluded regions are exactly the known findings) `json.Extract`
+succeeds and the CUE data literal it returns denotes the data of the text: same nesting, members
+in order with their names byte for byte, strings byte for byte (also after re-quoting, via
+C09's round trip), numbers as the exact decimal (`-0` as `0`).  For every `strconv` table
+`E` (with `E.Ok`) and every label decision `nq`. -/
+theorem C10_extract_data (E : Env) (hE : E.Ok) (nq : Bytes → Bool) (text : Bytes) (t : JTree)
+    (ht : parseTree text = some t) (hr : t.Readable) :
+    ∃ c, extractModel E nq text = some c ∧ evalData c = (parseJSON text).map JVal.normZero :=
+  extract_text hE nq text t ht hr
+
+/-- `C10_extract_accepted`: the same for EVERY text the reference parser accepts, with no
+well-formedness hypothesis (the parser only returns well-formed tokens: `C10_parse_tokens_wf`):
+if `parseJSON text = some d` then the text has a parse tree `t` denoting `d`, and whenever `t` is
+in the region `JTree.InRegion` (strings Unicode text without raw U+FEFF, numbers within apd's
+limits, member names pairwise distinct) `json.Extract` succeeds and its data literal evaluates
+to `d` (with `-0` read as `0`). -/
+theorem C10_extract_accepted (E : Env) (hE : E.Ok) (nq : Bytes → Bool) (text : Bytes) (d : JVal)
+    (h : parseJSON text = some d) :
+    ∃ t, parseTree text = some t ∧ t.den = d ∧
+      (t.InRegion → ∃ c, extractModel E nq text = some c ∧ evalData c = some d.normZero) := by
+  obtain ⟨t, ht, hd, -⟩ := parseJSON_tree text d h
+  refine ⟨t, ht, hd, fun hr => ?_⟩
+  obtain ⟨c, h1, h2⟩ := extract_text_full hE nq text t ht hr
+  exact ⟨c, h1, by rw [h2, h]; rfl⟩
+
+/-- the reference parser only returns well-formed tokens -/
+theorem C10_parse_tokens_wf (text : Bytes) (t : JTree) (h : parseTree text = some t) : t.TokWf :=
+  parseTree_wf text t h
+
+-- non-vacuity: the text `[-0,12]` is accepted, and a tree with a string label is in the region
+example : parseJSON [0x5B, 0x2D, 0x30, 0x2C, 0x31, 0x32, 0x5D] =
+    some (.arr [.num true 0 0, .num false 12 0]) := by rfl
+example : (JTree.obj [([.raw 0x61], .arr [.num { neg := true, int := [48], frac := none, exp := none }])]).InRegion := by
+  simp [JTree.InRegion, JTree.InRegionMembers, JTree.InRegionList, wellPaired, JTree.denMembers, distinctKeys,
+    JNum.inApdRange, JNum.exponent, JNum.coeff, expValue, fracDigits, digitsVal, numDigits]
+  decide
+
+/-- the same statement on parse trees, at any nesting depth of the walk -/
+theorem C10_extract_tree (E : Env) (hE : E.Ok) (nq : Bytes → Bool) (t : JTree) (hr : t.Readable)
+    (depth : Nat) : ∃ c, astOf t = some c ∧ evalData (patch E nq depth c) = some t.den.normZero :=
+  extract_value hE nq t hr depth
+
+-- non-vacuity: the tree of `{"a\n":[-0,"0123456789ab"]}` (a label that keeps its quotes and is
+-- re-quoted, a negative zero, a string long enough to be re-quoted) is in the covered region
+example : (JTree.obj [([.raw 0x61, .esc .n], .arr [.num { neg := true, int := [48], frac := none, exp := none },
+    .str [.raw 48, .raw 49, .raw 50, .raw 51, .raw 52, .raw 53, .raw 54, .raw 55, .raw 56, .raw 57, .raw 0x61, .raw 0x62]])]).Readable := by
+  simp only [JTree.Readable, JTree.ReadableMembers, JTree.ReadableList, StrOk, JTree.denMembers, distinctKeys]
+  refine ⟨⟨⟨?_, by simp [wellPaired], by decide⟩, ⟨⟨by decide, ?_⟩, ⟨?_, by simp [wellPaired], by decide⟩, trivial⟩, trivial⟩, by simp⟩
+  · intro i hi; simp at hi; rcases hi with h | h <;> subst h <;> decide
+  · simp [JNum.inApdRange, JNum.exponent, JNum.coeff, expValue, fracDigits, digitsVal, numDigits]
+  · intro i hi; simp at hi; rcases hi with h | h | h | h | h | h | h | h | h | h | h | h <;> subst h <;> decide
+
+/-- `C10_extract_duplicate`: an object with a repeated member name (everything else in the
+covered region): `Extract` succeeds, and the model makes NO data claim for the literal
+(`none`): the struct literal has a repeated label and the evaluator unifies the two values — a
+conflict error when they differ (known finding duplicate-key-differing-values; encoding/json
+would take the last value), the common value when they are equal.  Kept visible: the reading
+direction is proved only for documents without duplicate keys. -/
+theorem C10_extract_duplicate (E : Env) (hE : E.Ok) (nq : Bytes → Bool) (ms : List (List JItem × JTree))
+    (hm : JTree.ReadableMembers ms) (hd : distinctKeys (JTree.denMembers ms) = false) (depth : Nat) :
+    ∃ c, astOf (.obj ms) = some c ∧ evalData (patch E nq depth c) = none :=
+  extract_duplicate hE nq ms hm hd depth
+
+-- non-vacuity: `{"a":1,"a":2}`
+example : JTree.ReadableMembers [([.raw 0x61], .null), ([.raw 0x61], .bool true)] ∧
+    distinctKeys (JTree.denMembers [([.raw 0x61], .null), ([.raw 0x61], .bool true)]) = false := by
+  refine ⟨?_, by simp [JTree.denMembers, distinctKeys, denote, encodeRune]⟩
+  simp only [JTree.ReadableMembers, JTree.Readable, StrOk]
+  refine ⟨⟨?_, by simp [wellPaired], by decide⟩, trivial, ⟨?_, by simp [wellPaired], by decide⟩, trivial, trivial⟩ <;>
+    (intro i hi; simp at hi; subst hi; decide)
+
+/-- `C10_extract_bom`: a string token with a raw U+FEFF makes `extract` answer "invalid JSON"
+(the scanner half of `C10_string_decode_bom`, at document level; known finding string-raw-bom). -/
+theorem C10_extract_bom (items : List JItem) (hwf : WfItems items) (hb : noRawBOM items = false) :
+    astOf (.str items) = none :=
+  extract_bom items hwf hb
 
 end CueVerif.C10
